@@ -429,6 +429,7 @@ package graphql
 //@   ensures typeis(ttype, "*graphql.NonNull") && as(ttype, "*graphql.NonNull") != nil ==> result == GetNamed_0(as(ttype, "*graphql.NonNull").OfType)
 //@   ensures typeis(ttype, "*graphql.List") && as(ttype, "*graphql.List") != nil ==> result == GetNamed_0(as(ttype, "*graphql.List").OfType)
 //@   ensures !typeis(ttype, "*graphql.NonNull") && !typeis(ttype, "*graphql.List") ==> result == ttype
+//@   ensures !typeis(result, "*graphql.NonNull") && !typeis(result, "*graphql.List")
 
 //@ func TypeInfo.InputType
 //@   props C14 C02
